@@ -71,3 +71,18 @@ extern "C" void harness_write_fault() {
   v_assume(sel < CASES_PER_QUERY);
   dispatch<Case, CASES_PER_QUERY>(sel);
 }
+// the fault position is a FREE symbolic byte offset inside the file: everything else is concrete, so the paths fork only where a write() call
+// compares its range with the fault position (one path per write call of the writer)
+extern "C" void harness_write_fault_sym() {
+  unsigned which = v_param(0);
+  unsigned n = which == FM_EMPTY ? (unsigned)F_EMPTY_LEN : which == FM_TET ? (unsigned)F_TET_LEN : (unsigned)F_TETP_LEN;
+  uint64_t p = v_nondet_below(OUTCAP);
+  v_assume(p < n);
+  uint64_t len = 0;
+  WriteResult r = write_mesh(which, p, len);
+  v_assert(r != WriteResult::Ok, "C18 write fault: a write failure while saving must not give Ok");
+  v_assert(len <= p, "stream model: nothing is stored from the fault position on");
+  if (p >= n - 16) v_witness("C18 write fault inside the end-of-file chunk");
+  if (p < 48) v_witness("C18 write fault inside the file header");
+  v_witness("C18 write fault (symbolic position) end");
+}
